@@ -161,6 +161,47 @@ class Body:
             return True
         return b not in self.reachable_from([0], avoid=set(As))
 
+    def ret_locals(self):
+        """locals whose whole value becomes the return value: `_0` and everything moved into it as a whole (`_0 = move _7`; in a body
+        with an inlined helper, the helper's own return place)"""
+        if getattr(self, '_retl', None) is None:
+            out = {0}
+            changed = True
+            while changed:
+                changed = False
+                for _, st in self.stmts():
+                    rv = st.get('rv')
+                    if st['s'] == 'assign' and st['lhs']['l'] in out and not st['lhs']['p'] and rv and rv.get('rv') == 'use' \
+                            and rv['op']['k'] != 'const' and not rv['op']['pl']['p'] and rv['op']['pl']['l'] not in out:
+                        out.add(rv['op']['pl']['l'])
+                        changed = True
+            self._retl = out
+        return self._retl
+
+    def self_aliases(self, base=1):
+        """locals that stand for the receiver as a whole: `_1`, its plain copies and reborrows (`&mut *_1`); in a body with inlined
+        helpers these are the `self` of the helpers"""
+        cache = self.__dict__.setdefault('_selfal', {})
+        if base not in cache:
+            out = {base}
+            changed = True
+            while changed:
+                changed = False
+                for _, st in self.stmts():
+                    if st['s'] != 'assign' or st['lhs']['p'] or st['lhs']['l'] in out:
+                        continue
+                    rv = st['rv']
+                    src = None
+                    if rv.get('rv') == 'use' and rv['op']['k'] != 'const' and not rv['op']['pl']['p']:
+                        src = rv['op']['pl']['l']
+                    elif rv.get('rv') == 'ref' and rv['pl']['p'] == ['*']:
+                        src = rv['pl']['l']
+                    if src in out:
+                        out.add(st['lhs']['l'])
+                        changed = True
+            cache[base] = out
+        return cache[base]
+
     def return_blocks(self):
         return [i for i, bl in enumerate(self.blocks) if bl['term']['k'] == 'return']
 
@@ -314,8 +355,13 @@ class Prog:
         self._callers = None
 
     # ---- lookup ----------------------------------------------------------------------------
-    def body(self, name):
-        return self.bodies.get(name)
+    def body(self, name, raw=False):
+        """the body a rule is anchored in - by default with the private helpers only it calls spliced in (`inlined`, lib/inline.py): a
+        rule that is local to one function must not notice that a maintainer cut the function in two. raw=True: exactly as compiled."""
+        b = self.bodies.get(name)
+        if b is None or raw:
+            return b
+        return self.inlined(b)
 
     def find(self, pat):
         pat = P(pat)
@@ -397,6 +443,52 @@ class Prog:
             self._callers = idx
         return self._callers
 
+    def inlined(self, body, **kw):
+        """the body with the helpers only it calls spliced in (lib/inline.py); the body itself when there are none"""
+        import inline
+        if isinstance(body, str):
+            body = self.body(body, raw=True)
+        if body is None:
+            return None
+        if 'keep' not in kw:
+            kw['keep'] = _anchored_names()
+        key = (body.name, tuple(sorted((k, getattr(v, 'pattern', v)) for k, v in kw.items())))
+        cache = self.__dict__.setdefault('_inl', {})
+        if key not in cache:
+            cache[key] = inline.inlined(self, body, **kw)
+        return cache[key]
+
+    def owner_root(self, root, depth=3):
+        """the function a private helper belongs to: while every call of `root` sits in one other function of the same file, that one
+        (functions that the rules name are anchors themselves and are not climbed past)"""
+        for _ in range(depth):
+            if _anchored_names().search(root):
+                break                   # a function the rules name is nobody's helper
+            cs = [c for c in self.callers.get(root, []) if c.body.root != root]
+            for x in self.extra:
+                cs += [c for c in x.callers.get(root, []) if c.body.root != root]
+            up = {c.body.root for c in cs}
+            if len(up) != 1:
+                break
+            r2 = next(iter(up))
+            a_, b_ = self.bodies.get(root), self.bodies.get(r2)
+            if a_ is None or b_ is None or (a_.loc or '?').rsplit(':', 1)[0] != (b_.loc or '??').rsplit(':', 1)[0]:
+                break
+            root = r2
+        return root
+
+    def owned_by(self, root, owners, depth=3):
+        """`root` is one of `owners`, or a private helper of them: it has callers in this crate and every one of them is owned
+        (a function split off an owner keeps the owner's rights; a caller from anywhere else takes them away)"""
+        if root in owners:
+            return True
+        if depth == 0:
+            return False
+        cs = [c for c in self.callers.get(root, []) if c.body.root != root]
+        for x in self.extra:
+            cs += [c for c in x.callers.get(root, []) if c.body.root != root]
+        return bool(cs) and all(self.owned_by(c.body.root, owners, depth - 1) for c in cs)
+
     def calls_matching_all(self, pat):
         """call sites in the library and in every other target of the scope (bin, tests, benches)"""
         out = list(self.calls_matching(pat))
@@ -438,6 +530,29 @@ class Prog:
                 if cb is not None and (cb.calls_to(pat) or self.sites(cb, pat, depth, True)):
                     out.append(bb)
         return sorted(set(out))
+
+
+_ANCHORED = {}
+
+
+def _anchored_names():
+    """functions a rule names are anchors and are never dissolved into their caller: a pattern matching every function whose last
+    path segment occurs in a path (`..::name`) in the rule files"""
+    if 'pat' not in _ANCHORED:
+        import glob
+        import os
+        words = set()
+        here = os.path.dirname(os.path.abspath(__file__))
+        for f in glob.glob(os.path.join(here, '..', 'rules', '*.py')):
+            with open(f) as fh:
+                txt = fh.read()
+                # names written as part of a path (`Type::method`, `::(push|insert)$`), not the prose of the rule texts
+                words |= set(re.findall(r'::([A-Za-z_][A-Za-z0-9_]*)', txt))
+                words |= set(re.findall(r'''['"]([A-Za-z_][A-Za-z0-9_]*)['"]''', txt))      # E + 'value_is'
+                for alt in re.findall(r'::\(\??:?([A-Za-z0-9_|]+)\)', txt):
+                    words |= set(alt.split('|'))
+        _ANCHORED['pat'] = re.compile(r'(?:^|::|>::)(?:' + '|'.join(sorted(re.escape(w) for w in words if len(w) > 2)) + r')$')
+    return _ANCHORED['pat']
 
 
 def load(scope='lib', crate='risinglight', test=False):
